@@ -10,7 +10,13 @@
    const annotations, from_comptime_arg flags);
 3. failing-input search, independent of the model, on the implementation's results:
    composition law, textual-substitution spec, identity law, rank law, marking law of
-   partially_monomorphize_args, signature-vs-body agreement of monomorphize."""
+   partially_monomorphize_args, signature-vs-body agreement of monomorphize;
+4. compile-level differential (gen_progs.py, impl_compile.py): generated programs whose generic
+   functions forward their own type/const/comptime parameters to other generic functions, each
+   instantiated >= 2 times in one compilation, are compiled with the real compiler together
+   with their *textually substituted copy*; the two HUGRs must both validate (check_hugr),
+   have the expected number of monomorphizations per function, and unfold from `main` to the
+   same call tree (constants loaded, op histogram, call targets) up to names/numbering."""
 import json
 
 import vlib
@@ -200,6 +206,50 @@ def law_failures(c, res, allres):
     return out
 
 
+def compile_level(ctx, r, n):
+    """Returns (programs run, list of failures (key, name, detail)), smallest failure first."""
+    import hashlib
+    import gen_progs as gp
+    progs = []
+    for p in sorted((ctx.dir / "corpus").glob("*.progs")):
+        progs += json.loads(p.read_text())
+    for _ in range(n):
+        progs.append(gp.make(r))
+    payload = [{"id": i, "sources": {"generic": p["generic"], "copy": p["copy"]}} for i, p in enumerate(progs)]
+    res = json.loads(ctx.impl("impl_compile.py", payload))
+    fails, stats = [], {"programs": len(progs), "defs_generic": 0, "instantiations": 0, "multi_instantiated_forwarders": 0}
+    for p, o in zip(progs, res):
+        g, k = o["generic"], o["copy"]
+        why = []
+        if "error" in k:
+            why.append(f"the substituted copy does not compile: {k['error']}: {k['msg']}")
+        if "error" in g:
+            why.append(f"the generic program does not compile: {g['error']}: {g['msg']} {g.get('where')}")
+        if not why:
+            if g["valid"] is not True:
+                why.append(f"HUGR of the generic program rejected by check_hugr: {g['valid']}")
+            if k["valid"] is not True:
+                why.append(f"HUGR of the copy rejected by check_hugr: {k['valid']}")
+            if g["unfold"] != k["unfold"]:
+                why.append("call trees differ: some call site of the generic program targets a specialisation that loads other constants / has other ops than the copy's")
+            if g["defs"] != p["expected_defs"]:
+                why.append(f"monomorphizations per function: got {g['defs']}, expected {p['expected_defs']}")
+            if k["defs"] != p["instantiations"]:
+                why.append(f"copy has {k['defs']} functions, generator expected {p['instantiations']} (harness problem)")
+            stats["defs_generic"] += sum(g["defs"].values())
+            stats["instantiations"] += sum(p["instantiations"].values())
+            stats["multi_instantiated_forwarders"] += sum(1 for f, c in p["instantiations"].items() if f.startswith("mid") and c >= 2)
+        if why:
+            key = "prog:" + hashlib.sha1(p["generic"].encode()).hexdigest()[:12]
+            fails.append((len(p["generic"]), key, "generic program = textually substituted copy (compile level)",
+                          {"why": why, "generic_program": p["generic"], "substituted_copy": p["copy"],
+                           "expected_monomorphizations": p["expected_defs"],
+                           "generic_summary": g if "error" in g else {"valid": g["valid"], "defs": g["defs"]},
+                           "replay": "save generic_program as prog.py (add `import repo_shim` as first line and `main.compile_function()` at the end); PYTHONPATH=/verif/tools VERIF_REPO=<tree> /venv/bin/python prog.py; or feed [{id, sources:{generic, copy}}] to props/C13/impl_compile.py"}))
+    fails.sort(key=lambda f: f[0])
+    return stats, [f[1:] for f in fails]
+
+
 def replay_cmd(c):
     return ("echo '" + json.dumps([{k: v for k, v in c.items() if k != "a12"}]) + "' | PYTHONPATH=/verif/tools VERIF_REPO=<tree> /venv/bin/python /verif/props/C13/impl_inst.py")
 
@@ -215,7 +265,7 @@ def run(ctx):
     for p in sorted((ctx.dir / "corpus").glob("*.json")):
         for c in json.loads(p.read_text()):
             (strict_laws if "law" in c else corpus).append(c)
-    cases = corpus + gen_cases(ctx, G, r, 2 if ctx.quick else 12)
+    cases = corpus + gen_cases(ctx, G, r, 1 if ctx.quick else 8)
     # ---- implementation
     impl_in = [{k: v for k, v in c.items() if k != "a12"} for c in cases]
     for c, i in zip(cases, impl_in):
@@ -313,8 +363,16 @@ def run(ctx):
                 ctx.report(c["key"], "counterexample", "composition law under structural equality",
                            {"signature": c["f"], "steps": c["steps"], "two_steps_give": two[-1], "one_step_gives": one[0],
                             "replay": replay_cmd({"op": "ip", "f": c["f"], "steps": c["steps"]})})
+    # ---- compile-level differential
+    try:
+        cstats, cfails = compile_level(ctx, vlib.rng(ctx.seed, "C13-progs"), 40 if ctx.quick else 400)
+    except Exception as e:  # noqa: BLE001
+        cstats, cfails = {"programs": 0}, []
+        ctx.report("compile-harness", "correspondence", "compile-level harness crashed", {"error": str(e)[-1500:]}, found_input=False)
+    for key, name, detail in cfails[:2]:
+        ctx.report(key, "counterexample", name, detail)
     if not info["ok"]:
-        if not law_fail and not disagreements:
+        if not law_fail and not disagreements and not cfails:
             ctx.report("proof-broken:" + str(info["failed"]), "proof-broken", str(info["failed"]),
                        {"coq_error": vlib.CoqResult(False, info["log"]).error_excerpt(), "searched_cases": len(cases)},
                        found_input=False)
@@ -346,6 +404,7 @@ def run(ctx):
         compose_cases_with_comptime=sum(1 for c, _ in ip if any(p[0] == "PCon" and p[3] for p in c["f"]["params"])),
         hugr_cases_error_both=sum(1 for c, i in zip(cases, impl) if c["op"] in ("tohugr", "poly", "sig_m") and i == "ERR"),
         corpus_cases=len(corpus), strict_law_cases=len(strict_laws),
+        compile_level=dict(cstats, failures=len(cfails)),
         samples=[{"case": cases[j], "impl": impl[j]} for j in (len(corpus), len(cases) // 2, len(cases) - 1) if j < len(cases)],
         notes=ctx.notes)
     return ctx.finish(LEVEL, cov, [
